@@ -131,6 +131,10 @@ def _meta_of(f: dataclasses.Field) -> dict:
 # building real types / values from the JSON specs ---------------------------------------------
 
 
+class MyDict(dict):
+    """a user-side dict subclass (a Dict field may hold one)"""
+
+
 class Built:
     """Real typing objects for one case. Classes get a per-process unique suffix (registries are keyed by class)."""
 
@@ -251,6 +255,17 @@ class Built:
             d = OrderedDict() if V.get("odict") else {}
             for k, x in V["v"]:
                 d[self.val(k)] = self.val(x)
+            m = V.get("mapping")
+            if m == "mydict":
+                return MyDict(d)
+            if m == "defaultdict":
+                import collections
+
+                return collections.defaultdict(list, d)
+            if m == "counter":
+                import collections
+
+                return collections.Counter(d)
             return d
         if t == "inst":
             c = self.classes[V["cls"]]
@@ -412,7 +427,9 @@ def collect_enums(T: dict, b: Built):
 # ------------------------------------------------------------------------------------------------
 # generators ------------------------------------------------------------------------------------
 
-INTS = [0, 1, -1, 2, 7, -5, 12, 255, -300, 10**9 + 7, 2**63, -(2**64), 10**18, 10**40, -(10**40) + 3]
+INTS = [0, 1, -1, 2, 7, -5, 12, 255, -300, 10**9 + 7, 2**63, -(2**64), 10**18, 10**40, -(10**40) + 3,
+        # beyond the float range, on BOTH sides (fa1139b: `_decode_int` must not let float(v) overflow)
+        2**1024, -(2**1024), -(2**1024) - 7, 10**400, -(10**400), -(3**700)]
 FLOATS = ["0.0", "-0.0", "1.5", "-2.25", "1e-07", "1e+16", "3.141592653589793", "inf", "-inf", "1e+300", "5e-324", "100.0",
           "0.1", "-0.5", "2.0", "123456.789"]
 STRS = ["", "a", "hello world", "12", "yes", "None", "null", "é", "日本語", "a\nb", " x ", "1.5", "true", "[1]", "ключ",
@@ -623,7 +640,11 @@ def gen_value(rng, T: dict):
             kv = gen_value(rng, T["key"])
             items.setdefault(pykey(kv), [kv, gen_value(rng, T["val"])])
         # a Dict field may hold a collections.OrderedDict (p = 0.1)
-        return {"t": "dict", "odict": bool(items) and rng.random() < 0.1, "v": list(items.values())}
+        out = {"t": "dict", "odict": bool(items) and rng.random() < 0.1, "v": list(items.values())}
+        if items and not out["odict"] and rng.random() < 0.15:
+            # other Mapping types a Dict field may hold: a user dict subclass, a defaultdict, a Counter (int values)
+            out["mapping"] = rng.choice(["mydict", "defaultdict"] + (["counter", "counter"] if T["val"]["k"] == "int" else []))
+        return out
     if k == "dc":
         return {"t": "inst", "cls": T["cls"], "v": [[f["name"], gen_value(rng, f["ty"])] for f in T["fields"]]}
     raise ValueError(k)
@@ -1209,6 +1230,8 @@ def value_tags(T, V, acc):
         acc.add(f"val:empty-{t}")
     if t == "dict" and V.get("odict"):
         acc.add("val:ordereddict")
+    if t == "dict" and V.get("mapping"):
+        acc.add("val:mapping-" + V["mapping"])
     if k == "opt":
         if T["inner"]["k"] == "dc":
             acc.add("shape:opt<dc>")
